@@ -78,6 +78,7 @@ func shBuild(c shCase) (*bt.Tx, []byte) {
 func c02Check(c shCase) (fs []rep.Finding) {
 	ref := c.R.build()
 	tx, sc := shBuild(c)
+	packScripts(tx)
 	var before []byte
 	if !c.NoTxID {
 		before = tx.ExtendedBytes()
@@ -146,6 +147,7 @@ func c03Check(c c03Case) (fs []rep.Finding) {
 			in.UnlockingScript = nil
 		}
 	}
+	packScripts(tx)
 	before := tx.ExtendedBytes()
 	snapshot := toLib(ref) // independent copy for field comparison
 	flag := sighash.Flag(c.HT)
